@@ -54,6 +54,7 @@ PROPS = {
     note=E1_NOTE,
     technique=E1_TECH,
     e1=[dict(tu="c04_select.cpp"), dict(tu="c03b_dynamic.cpp")],
+    e2=[dict(rule="R-PAIR")],
     rule=E1_RULE,
     explanation="src = dst mod shape (tile), src_axis = dst_axis / r (repeat), src_axis = (dst_axis - shift) mod extent (roll), written from the NumPy definitions.",
     not_decided="take, compress, concatenate/stack family, split, sliding_window, diagonal, tril/triu, where, generators, pad, resize, expand, per-element repeats, repeat/roll without axis",
